@@ -1,2 +1,111 @@
-From Verif Require Import Model.Chain.
-Example C06_placeholder : 1 = 1. Proof. reflexivity. Qed.
+(* Properties/C06.v — checking has no effects (and what it cannot know is unknown, not invented).
+   Statements only; proofs in Proofs/EvalLog*.v.  For ALL worlds, fuels, definitions, start states.
+   NOT covered here: the approximation relation between check and open results (check_approx_open) and
+   schema soundness (schema_sound) of DESIGN.md C06 — they need a simulation between the two modes. *)
+From Verif Require Import Base.Bytes Model.Chain Model.GoText Model.Envelope Model.Eval Corr.EvalWire.
+From Verif Require Import Proofs.EvalLogKit Proofs.EvalLogInd Proofs.EvalLog Proofs.EvalLogCheck Proofs.EvalLogCorr.
+From Verif Require Corr.C06.
+
+(* ---- check_effect_free ---- *)
+(* checking opens no provider *)
+Theorem C06_check_opens_no_provider : forall fuel W name d,
+  w_check W = true -> forall e, In e (ob_log (run fuel W name d)) -> is_open e = false.
+Proof. exact run_check_no_open. Qed.
+
+(* and, unless secrets are explicitly requested, decrypts nothing *)
+Theorem C06_check_decrypts_nothing : forall fuel W name d,
+  w_check W = true -> w_show W = false -> forall e, In e (ob_log (run fuel W name d)) -> is_decrypt e = false.
+Proof. exact run_check_no_decrypt. Qed.
+
+Theorem C06_check_opens_no_provider_env : forall W fuel root name d,
+  w_check W = true -> forall e, In e (log (snd (eval_env W fuel root name d st0))) -> is_open e = false.
+Proof. exact check_no_open_env. Qed.
+
+Theorem C06_check_decrypts_nothing_env : forall W fuel root name d,
+  w_check W = true -> w_show W = false ->
+  forall e, In e (log (snd (eval_env W fuel root name d st0))) -> is_decrypt e = false.
+Proof. exact check_no_decrypt_env. Qed.
+
+(* as invariants of each of the six evaluator functions, from any start state *)
+Theorem C06_check_no_open : forall W fuel, w_check W = true ->
+  all_six W fuel (fun s s' => Forall (fun e => is_open e = false) (log s) -> Forall (fun e => is_open e = false) (log s')).
+Proof. exact check_no_open. Qed.
+
+Theorem C06_check_no_decrypt : forall W fuel, w_check W = true -> w_show W = false ->
+  all_six W fuel (fun s s' => Forall (fun e => is_decrypt e = false) (log s) -> Forall (fun e => is_decrypt e = false) (log s')).
+Proof. exact check_no_decrypt. Qed.
+
+(* in every mode: only ciphertexts that came out of a successfully decoded envelope are ever passed to the
+   decrypter (decode before decrypt; C11's last clause), and never while checking without showSecrets *)
+Theorem C06_decrypt_only_valid_envelopes : forall fuel W name d env ct,
+  In (EvDecrypt env ct) (ob_log (run fuel W name d)) ->
+  (exists repr, decode_ct std_params repr = DOk ct) /\ (w_check W && negb (w_show W)) = false.
+Proof. exact run_decrypt_only_valid_envelopes. Qed.
+
+(* the environment whose key is used is the one evaluated or one whose Load is in the log *)
+Theorem C06_decrypt_env_own_or_loaded : forall W fuel root name d e c,
+  In e (log (snd (eval_env W fuel root name d st0))) -> ev_env e = Some c ->
+  c = name \/ In (EvLoad c) (log (snd (eval_env W fuel root name d st0))).
+Proof. exact event_env_own_or_loaded. Qed.
+
+(* ---- unknown_not_invented, simple form ---- *)
+(* while checking, a fn::open expression evaluates to ONE unknown layer carrying the provider's declared
+   output schema (ScAlways if the provider could not be loaded) *)
+Theorem C06_check_open_repr_unknown : forall W f E pname inputs xbase id s,
+  w_check W = true ->
+  fst (eval_repr W (S f) E (EOpen pname inputs) xbase id s)
+  = [unknown_layer false (out_schema (seen_provider W pname s))].
+Proof. exact check_open_repr_unknown. Qed.
+
+Theorem C06_check_open_expr_unknown : forall W f E pname inputs xsec xbase id s,
+  w_check W = true -> memo_get id (memo s) = None ->
+  exists l,
+    fst (eval_expr W (S (S f)) E (EOpen pname inputs) xsec xbase id s) = l :: xbase
+    /\ l_unk l = true
+    /\ l_sch l = out_schema (seen_provider W pname s).
+Proof. exact check_open_expr_unknown. Qed.
+
+(* while checking without showSecrets, a ciphertext secret is an unknown secret string, whatever the envelope *)
+Theorem C06_check_cipher_repr_unknown : forall W f E repr xbase id s,
+  w_check W = true -> w_show W = false ->
+  fst (eval_repr W (S f) E (ESecretCipher repr) xbase id s) = [LScalar true true (ScType "string") SNull].
+Proof. exact check_cipher_repr_unknown. Qed.
+
+(* ---- transfer to the correspondence check: the effect clauses of Corr/C06.spec_fail cannot fire on an
+   implementation log that matches the model's ---- *)
+Theorem C06_matched_check_has_no_open : forall fuel W name d lg,
+  w_check W = true -> log_matches (ob_log (run fuel W name d)) lg = true -> C06.has_open lg = false.
+Proof. exact matched_check_has_no_open. Qed.
+
+Theorem C06_matched_check_has_no_decrypt : forall fuel W name d lg,
+  w_check W = true -> w_show W = false ->
+  log_matches (ob_log (run fuel W name d)) lg = true -> C06.has_decrypt lg = false.
+Proof. exact matched_check_has_no_decrypt. Qed.
+
+(* ---- examples: same program, three modes ---- *)
+Example C06_ex_open :
+  ob_log (run 30 (ex_world false false) "e" ex_def2)
+  = [EvLoad "imp"; EvLoadProvider "p";
+     EvOpen ("imp", [IKey "b"]) "p" (XObj false false [("k", XScalar false false (SStr "w"))]) "e" "imp";
+     EvLoadProvider "p";
+     EvOpen ("e", [IKey "a"]) "p" (XObj false false [("k", XScalar false false (SStr "v"))]) "e" "e";
+     EvDecrypt "e" "c1ph3r"].
+Proof. vm_compute. reflexivity. Qed.
+
+Example C06_ex_check :
+  ob_log (run 30 (ex_world true false) "e" ex_def2) = [EvLoad "imp"; EvLoadProvider "p"; EvLoadProvider "p"].
+Proof. vm_compute. reflexivity. Qed.
+
+Example C06_ex_check_showsecrets :
+  ob_log (run 30 (ex_world true true) "e" ex_def2)
+  = [EvLoad "imp"; EvLoadProvider "p"; EvLoadProvider "p"; EvDecrypt "e" "c1ph3r"].
+Proof. vm_compute. reflexivity. Qed.
+
+Example C06_ex_envelope : decode_ct std_params ex_ct = DOk "c1ph3r".
+Proof. vm_compute. reflexivity. Qed.
+
+(* check mode: the provider's value is unknown with the provider's output schema (string) *)
+Example C06_ex_check_value :
+  ob_value (run 20 (ex_world true false) "e" ex_def1)
+  = Some (XObj false false [("a", XScalar false true SNull)]).
+Proof. vm_compute. reflexivity. Qed.
